@@ -1044,6 +1044,10 @@ def check_C07(A, R, tier):
     # R7.10 (= R5.2): a failure elsewhere never ends the evaluation early: 'finished' is reported only when every job is (a count
     # of 'done' announcements counts a job twice that is re-classified upstream-failed after it was skipped)
     rule_finished_means_all(A, R, "R7.10")
+    # R7.11 (= R6.6): a failure passed on in a later round cancels the consider signals pending for the downstream - handled first,
+    # they end in an internal error that drops the batch, and the downstream is never reported upstream-failed
+    from rules_compare import rule_failure_cancels_considers
+    rule_failure_cancels_considers(A, R, "R7.11")
     # R7.3 typestate
     postrun = set(C["Running"])
     changed = True
